@@ -210,6 +210,7 @@ func (l *vSrvListener) Accept() (net.Conn, error) {
 	}
 	return r.conn, r.err
 }
+
 // offer hands r to the Accept call the loop is parked in; false when no Accept call takes it
 func (l *vSrvListener) offer(r vSrvAcc) bool {
 	select {
@@ -1357,7 +1358,6 @@ func vSrvRunProc(sc vSrvSched, tr *vSrvTrace) {
 		tr.Info = map[string]interface{}{"stderr": string(b)}
 	}
 }
-
 
 func TestVerifServerMain(t *testing.T) {
 	in, out := os.Getenv("VERIF_SRV_SCHED"), os.Getenv("VERIF_SRV_OUT")
